@@ -720,8 +720,12 @@ impl Gen {
                     }
                 }
                 11 => {
-                    if rng.chance(1, 2) {
+                    if rng.chance(1, 3) {
                         return Some(Action::Dot);
+                    }
+                    if rng.chance(1, 3) {
+                        // grow or shrink the limit, with or without writes pending
+                        return Some(Action::SetMaxHeight(*rng.pick(&[1024usize, 1100, 2048, 1500])));
                     }
                     let all: Vec<NodeId> = (0..w.model.nodes.len()).filter(|n| w.model.nodes[*n].handle_alive).collect();
                     if !all.is_empty() && self.cfg.subscriptions {
